@@ -242,8 +242,20 @@ rotate(Array<T, 3> const& dir, Array<T, 3> const& rot)
     else if (sintheta > 0)
     {
         // Avoid catastrophic roundoff error by normalizing x/y components
-        cosphi = rot[X] / std::sqrt(ipow<2>(rot[X]) + ipow<2>(rot[Y]));
-        sinphi = std::sqrt(1 - ipow<2>(cosphi));
+        // (sin phi takes the sign of y; if both components vanish the track
+        // is numerically on the axis and the azimuthal angle is arbitrary)
+        T const rho = std::sqrt(ipow<2>(rot[X]) + ipow<2>(rot[Y]));
+        if (rho > 0)
+        {
+            cosphi = rot[X] / rho;
+            sinphi = std::sqrt(1 - ipow<2>(cosphi));
+        }
+        else
+        {
+            sintheta = 0;
+            cosphi = 1;
+            sinphi = 0;
+        }
     }
     else
     {
